@@ -790,13 +790,20 @@ def _flatmap(m, name, ctx=None):
     """H when the module function `name` is  def F(xs): for x in xs: if isinstance(x, list): yield from F(x) else: yield H(x)
     (depth-first flattening of nested lists with H applied to the leaves; H = "" for the identity); None otherwise"""
     fn = m.functions.get(name)
+    owner = None
+    if fn is None and name.count(".") == 1 and name.split(".")[0] in m.classes:
+        # a static method of a (namespace) class of the module, called through the class
+        owner = m.classes[name.split(".")[0]]
+        fn = owner.methods.get(name.split(".")[1])
+        if fn is not None and not any(u(d) == "staticmethod" for d in fn.decorator_list):
+            fn = None
     if fn is None or len(fn.args.args) != 1 or fn.args.vararg or fn.args.kwarg:
         return None
     p = fn.args.args[0].arg
     b = real_body(fn)
     if ctx is not None:
         try:
-            b = ctx.cfn(f"{m.name}.{name}").body        # guard-clause / continue layouts coincide
+            b = (ctx.canon.fn(fn, m, owner) if owner is not None else ctx.cfn(f"{m.name}.{name}")).body        # guard-clause / continue layouts coincide
         except Exception:
             pass
     if len(b) != 1 or not isinstance(b[0], ast.For) or b[0].orelse or u(b[0].iter) != p or not isinstance(b[0].target, ast.Name) or len(b[0].body) != 1:
@@ -806,7 +813,8 @@ def _flatmap(m, name, ctx=None):
     if not (isinstance(st, ast.If) and u(st.test) == f"isinstance({x}, list)" and len(st.body) == 1 and len(st.orelse) == 1):
         return None
     rec, leaf = st.body[0], st.orelse[0]
-    if not (isinstance(rec, ast.Expr) and isinstance(rec.value, ast.YieldFrom) and u(rec.value.value) == f"{name}({x})"):
+    short = name.split(".")[-1]
+    if not (isinstance(rec, ast.Expr) and isinstance(rec.value, ast.YieldFrom) and u(rec.value.value) in (f"{name}({x})", f"{short}({x})", f"{short}({p}={x})", f"{name}({p}={x})")):
         return None
     if not (isinstance(leaf, ast.Expr) and isinstance(leaf.value, ast.Yield) and leaf.value.value is not None):
         return None
@@ -821,13 +829,13 @@ def _flatmap(m, name, ctx=None):
 def _flat_bits_of(ctx, m, g):
     """(leaf function, data) when the iterable g yields leaf(p) for every primitive p of the nested lists in data, depth first:
     F(data) with F a flattening generator, or (H(p) for p in F(data)) with F flattening with the identity on leaves"""
-    if isinstance(g, ast.Call) and isinstance(g.func, ast.Name) and len(g.args) == 1 and not g.keywords:
-        h = _flatmap(m, g.func.id, ctx)
+    if isinstance(g, ast.Call) and isinstance(g.func, (ast.Name, ast.Attribute)) and len(g.args) == 1 and not g.keywords:
+        h = _flatmap(m, u(g.func), ctx)
         if h:
             return h, u(g.args[0])
     if isinstance(g, (ast.GeneratorExp, ast.ListComp)) and len(g.generators) == 1 and not g.generators[0].ifs and isinstance(g.generators[0].target, ast.Name):
         it, v = g.generators[0].iter, g.generators[0].target.id
-        if isinstance(it, ast.Call) and isinstance(it.func, ast.Name) and len(it.args) == 1 and not it.keywords and _flatmap(m, it.func.id, ctx) == "" \
+        if isinstance(it, ast.Call) and isinstance(it.func, (ast.Name, ast.Attribute)) and len(it.args) == 1 and not it.keywords and _flatmap(m, u(it.func), ctx) == "" \
                 and isinstance(g.elt, ast.Call) and isinstance(g.elt.func, ast.Name) and len(g.elt.args) == 1 and not g.elt.keywords and u(g.elt.args[0]) == v:
             return g.elt.func.id, u(it.args[0])
     return None
